@@ -136,6 +136,28 @@ def check_time_aware(ctx: Ctx, rnd, tier):
             if not close(quad, tau * S, 1e-9):
                 ctx.violation(f"C20:GMRF:precision-matrix:time-aware{'-rescaled' if rescale else ''}",
                               f"time-aware GMRF: x'Qx with the published precision matrix = {quad!r}, the density uses tau*S = {tau * S!r}", {"field": field})
+                continue
+            # history: matrix read, the tree moves, the density is evaluated, the matrix is read again (a block update after a tree
+            # move): the matrix must be the one of the CURRENT heights
+            sh = dic["shifts"]
+            old_shifts = sh.tensor.detach().clone()
+            sh.tensor = old_shifts * torch.tensor([1.0 + 0.37 * ((i % 3) + 1) for i in range(old_shifts.numel())])
+            internal2 = sorted(tm.node_heights[n:].tolist())
+            hs2 = [0.0] + internal2
+            d2 = [b - a for a, b in zip(hs2[:-1], hs2[1:])]
+            w2 = [((d2[i] + d2[i + 1]) / 2.0) / (hs2[-1] if rescale else 1.0) for i in range(n - 2)]
+            if all(v > 0 for v in w2):
+                S2 = sum((field[i + 1] - field[i]) ** 2 / w2[i] for i in range(n - 2))
+                got2 = float(g())
+                quad2 = float(xt @ g.precision_matrix() @ xt)
+                ctx.add("time_aware_histories")
+                if not close(got2, gmrf_logp(S2, n - 1, tau), 1e-9):
+                    ctx.violation(f"C20:GMRF:density:time-aware:after-tree-move", f"time-aware GMRF after the tree moved: {got2!r}, expected {gmrf_logp(S2, n - 1, tau)!r}", {"field": field})
+                elif not close(quad2, tau * S2, 1e-9):
+                    ctx.violation(f"C20:GMRF:precision-matrix:time-aware:after-tree-move",
+                                  f"time-aware GMRF, matrix read / tree move / density / matrix read: x'Qx = {quad2!r}, the density uses tau*S = {tau * S2!r} "
+                                  f"(the matrix of the old heights gives {tau * S!r})", {"field": field})
+            sh.tensor = old_shifts
 
 
 def check_integrated(ctx: Ctx, rnd, tier):
